@@ -235,3 +235,11 @@ pub fn library_validate(fd: Fd, shape: &Arc<Shape>, options: &ProofOptions, cols
         Fd::F128 => lib_validate_g::<f128::BaseElement>(shape, options, cols, values),
     }
 }
+
+fn levels_g<B: Fld, H: ElementHasher<BaseField = B>, R: RandomCoin<BaseField = B, Hasher = H>>(proof: &Proof) -> (u32, u32) {
+    (proof.security_level::<H>(true), proof.security_level::<H>(false))
+}
+/// (conjectured, proven) security level of a proof under the hasher of the combination
+pub fn security_levels(fd: Fd, hs: Hs, proof: &Proof) -> (u32, u32) {
+    dispatch!(fd, hs, false, levels_g, proof)
+}
